@@ -525,3 +525,73 @@ Example C16_tie_example :
   snd (Src3x.create_file out_ (s2b "flink") fs_sandbox) = Ok None /\
   snd (Src3x.create_file out_ (s2b "deep/new.txt") fs_sandbox) = Ok (Some (out_ ++ [s2b "deep"; s2b "new.txt"], out_ ++ [s2b "deep"; s2b "new.txt"])).
 Proof. vm_compute. repeat split. Qed.
+
+(* ====================================================================================== *)
+(* Work package fixcli: the PROLOGUE of `extract` (create_dir of a missing output directory, canonicalize) — model
+   PathDir.v, translated from the source into Src3x.extract_from_open — and `extract` from the `-o` ARGUMENT. *)
+From MLA Require PathDir PathDirProofs CliExtractOut.
+
+(* the prologue only ever ADDS a directory: every file, link and directory that was there is there unchanged,
+   no file and no link appears *)
+Theorem C16_prologue_only_adds_a_directory :
+  forall f o, mk_rel f (fst (PathDir.extract_prologue f o)).
+Proof. exact PathDirProofs.prologue_rel. Qed.
+Theorem C16_create_dir_spec : ltac:(let t := type of PathDirProofs.create_dir_spec in exact t).
+Proof. exact PathDirProofs.create_dir_spec. Qed.
+(* the output directory handed to create_file is physical (no link on its way), and a real directory when the
+   prologue had to create it *)
+Theorem C16_prologue_physical : ltac:(let t := type of PathDirProofs.prologue_physical in exact t).
+Proof. exact PathDirProofs.prologue_physical. Qed.
+Theorem C16_prologue_created_real : ltac:(let t := type of PathDirProofs.prologue_created_real in exact t).
+Proof. exact PathDirProofs.prologue_created_real. Qed.
+Theorem C16_prologue_existing_dir : ltac:(let t := type of PathDirProofs.prologue_existing_dir in exact t).
+Proof. exact PathDirProofs.prologue_existing_dir. Qed.
+Theorem C16_prologue_resolves : ltac:(let t := type of PathDirProofs.prologue_resolves in exact t).
+Proof. exact PathDirProofs.prologue_resolves. Qed.
+Theorem C16_prologue_creates : ltac:(let t := type of PathDirProofs.prologue_creates in exact t).
+Proof. exact PathDirProofs.prologue_creates. Qed.
+Theorem C16_prologue_refused : ltac:(let t := type of PathDirProofs.prologue_refused in exact t).
+Proof. exact PathDirProofs.prologue_refused. Qed.
+(* the output path exists as a file / is a symbolic link to a directory / dangles / has a missing parent *)
+Example C16_prologue_cases : ltac:(let t := type of PathDirProofs.prologue_cases in exact t).
+Proof. exact PathDirProofs.prologue_cases. Qed.
+Example C16_file_as_output_dir : ltac:(let t := type of PathDirProofs.file_as_output_dir in exact t).
+Proof. exact PathDirProofs.file_as_output_dir. Qed.
+
+(* ANY archive bytes, keys, file system with links, ANY `-o` argument, both forms, failure at any point: with
+   `out` the canonical directory the prologue arrives at, no regular file outside `out` is created, truncated,
+   appended to or removed and no link changes (the prologue adds at most the output directory itself) *)
+Theorem C16_extract_o_confined : ltac:(let t := type of CliExtractOut.extract_o_confined in exact t).
+Proof. exact CliExtractOut.extract_o_confined. Qed.
+Theorem C16_extract_o_failed_open_untouched : ltac:(let t := type of CliExtractOut.extract_o_failed_open_untouched in exact t).
+Proof. exact CliExtractOut.extract_o_failed_open_untouched. Qed.
+Theorem C16_extract_o_existing_dir : ltac:(let t := type of CliExtractOut.cmd_extract_o_existing in exact t).
+Proof. exact CliExtractOut.cmd_extract_o_existing. Qed.
+
+(* Tie A: the translated prologue = PathDir.extract_prologue; the translated `extract` from the prologue on is confined *)
+Theorem C16_tie_extract_from_open_src : ltac:(let t := type of SrcTie3Cli.extract_from_open_src in exact t).
+Proof. exact SrcTie3Cli.extract_from_open_src. Qed.
+Theorem C16_tie_extract_from_open_confined_src : ltac:(let t := type of SrcTie3Cli.C16_extract_from_open_confined_src in exact t).
+Proof. exact SrcTie3Cli.C16_extract_from_open_confined_src. Qed.
+Theorem C16_tie_cmd_extract_linear_pool_src : ltac:(let t := type of SrcTie3Cli.cmd_extract_linear_pool_src in exact t).
+Proof. exact SrcTie3Cli.cmd_extract_linear_pool_src. Qed.
+Theorem C16_tie_cmd_extract_linear_pool_o_src : ltac:(let t := type of SrcTie3Cli.cmd_extract_linear_pool_o_src in exact t).
+Proof. exact SrcTie3Cli.cmd_extract_linear_pool_o_src. Qed.
+
+Print Assumptions C16_prologue_only_adds_a_directory.
+Print Assumptions C16_create_dir_spec.
+Print Assumptions C16_prologue_physical.
+Print Assumptions C16_prologue_created_real.
+Print Assumptions C16_prologue_existing_dir.
+Print Assumptions C16_prologue_resolves.
+Print Assumptions C16_prologue_creates.
+Print Assumptions C16_prologue_refused.
+Print Assumptions C16_prologue_cases.
+Print Assumptions C16_file_as_output_dir.
+Print Assumptions C16_extract_o_confined.
+Print Assumptions C16_extract_o_failed_open_untouched.
+Print Assumptions C16_extract_o_existing_dir.
+Print Assumptions C16_tie_extract_from_open_src.
+Print Assumptions C16_tie_extract_from_open_confined_src.
+Print Assumptions C16_tie_cmd_extract_linear_pool_src.
+Print Assumptions C16_tie_cmd_extract_linear_pool_o_src.
